@@ -4,6 +4,8 @@ import QV.Proofs.Front6
 import QV.Proofs.Front9
 import QV.Proofs.Front10
 import QV.Proofs.Front11
+import QV.Proofs.FrontT9
+import QV.Proofs.FrontX3
 import QV.Proofs.A2A6
 import QV.Proofs.A2A7
 import QV.Proofs.A2A8
@@ -37,10 +39,15 @@ What is proved here (**partial**):
   the fixed-width one (`semW_eq_sem`, `semW_low_bits`), and their assembly `C01_straightline` (end of
   this file).
 
-NOT proved: `C01_statement` for all programs – `if` / `for` (unrolled by `ast2ast`, which has no Lean
-model; the guarded assignments `d = b if c else d` it leaves for an `if` read their own target and are
-outside `straightLine`), tuples, `Qchar`, subscripts, and the rejection half; those are tied to the code by the
-correspondence and the oracle of `harness/c01.py` only.
+* the **structured types** - tuples (hence `Qlist`, `Qmatrix`), constant-index subscript chains, `Qchar`:
+  `C01_expr_struct`, `C01_body_struct`, `C01_straightline_struct` against the widened semantics
+  `QV.Sem.semT` / `semXT` (`QV/Model/SemT.lean`, `SemXT.lean`), which extend `semW` / `sem`
+  (`semT_extends_semW`).
+
+NOT proved: `C01_statement` for all programs – guarded assignments over the structured types (the `if` / `for`
+theorems `C01_if` / `C01_for` are stated for bool / Qint), the sites where the library uses a `Qchar` as an
+8-bit integer (`Sem.wellT`), builtins and variable subscripts (expanded by `ast2ast` before the translator),
+and the rejection half; those are tied to the code by the correspondence and the oracle of `harness/c01.py` only.
 -/
 namespace QV.C01
 open QV QV.Arith QV.Front
@@ -561,6 +568,209 @@ theorem C01_statement_straightline (p : Prog) (consts : List (Bool × Bool))
         simp only [hx, Option.map_some, Option.some.injEq] at hexp
         subst hexp
         exact (hall xv hx).2
+
+/-! ## the structured types: tuples (`Qlist`, `Qmatrix`), `Qchar`
+
+`QV/Model/SemT.lean` widens the reference semantics: `Sem.TVal` = bool | `x : Qint[w]` | `Qchar` code point |
+(nested) tuple; `Sem.semT` extends `Sem.semW` (`semT_extends_semW`) with tuple literals, constant-index
+subscript chains `a[i]`, `a[i][j]` (and bit `k` of a `Qint` element), `Qchar` constants, `==` / `!=` on
+`Qchar` (with a `Qchar` or a `Qint`) and on tuples of one type, if-expressions over `Qchar` / tuples of one
+type; arguments of every type are decoded from their bits (`Sem.decodeT`, `Sem.argsEnvT`); a returned
+tuple / `Qchar` must have the declared type (`Sem.coerceRetT`; the library fills / crops `Qint` returns
+only).  Denotation `Sem.DenT ρ t v sv`: a bool is one expression, a `Qint[w]` / `Qchar` a list of `w` / 8
+bit expressions with that value, a tuple any list value (nested as a tuple literal builds it, flat as a
+name or a subscript evaluates) whose leaves evaluate, in order, to the bits of a tuple value of type `t`.
+
+Hypothesis `Sem.wellT σ e` (decidable; `Sem.wellProg p ρ` along a body): no sub-expression uses a `Qchar`
+as an 8-bit integer - `c[i]`, `~c`, an if-expression with a `Qchar` and a `Qint` branch, a `Qchar` returned
+as a `Qint` or the converse (`Sem.wellRet`) - sites the library accepts and python gives no meaning.  It
+holds wherever `semW` is defined (`semT_extends_semW`).  Two further exclusions were needed while the
+theorems were being proved, because the library *differed* from python there; both were repaired in /repo
+and are now covered: `!=` on tuples (was "every bit differs", 6b91624) and a subscript chain that stops at
+a tuple (`m[0]`: was the undefined symbol `m.0`, 6b971e4). -/
+
+/-- **C01_expr_struct** - the translator theorem for expressions over bool / `Qint` / `Qchar` / tuples.
+For every expression `e` of the fragment `Sem.inFragT` (`Sem.inFrag` plus `Qchar` constants below 256,
+constant-index subscript chains with non-negative indices, tuple literals of at least two elements), every
+binding environment `env` whose bindings have the bit names of their (`Sem.tyGood`) types and denote the
+values `σ` gives them under `ρ` (`Sem.EnvOKT`), if no excluded site occurs (`Sem.wellT`) and the model of
+`translate_expression` succeeds with type `t` and value `v`, then `SemT` is defined on `e`, the value has
+the library type `t`, lies in the range of its type, and the leaves of `v` evaluate under `ρ`, in order, to
+its bits (`Sem.DenT` says in addition how `v` is shaped).  Structural induction
+(`QV/Proofs/FrontT1 … FrontT5.lean`): the bool / `Qint` cases are those of `C01_expr`, every other operand
+type makes the translator raise; new: `Qchar` comparisons through `QintImp.eq / neq`; tuple `==` / `!=` -
+the loop over the flat bit positions decides python's elementwise equality (`tupleCmp_eval`: the positions
+read are all leaves because the value has exactly `bits(t)` of them, `TVal.beq_iff_bits`: two values of
+one type in range are equal iff their bits are); if-expressions over `Qchar` / tuples (`iteZip_ok`); a
+subscript chain selects the value decoded from the symbols its path names (`walk_index`: induction over
+the path along `walkTy`; the last index may select bit `i` of a `Qint`, `testBit_valLE`). -/
+theorem C01_expr_struct (ρ : Env) (env : Front.Env) (σ : Sem.TEnv) (henv : Sem.EnvOKT ρ env σ)
+    (e : PExp) (hfrag : Sem.inFragT e = true) (hwell : Sem.wellT σ e = true) (s s' : St) (t : Ty) (v : Val)
+    (h : (tr Quirks.none env e).run s = .ok ((t, v), s')) :
+    ∃ sv, Sem.semT σ e = some sv ∧ Sem.DenT ρ t v sv ∧ sv.ty = t ∧ sv.wf = true ∧
+      v.flatten.map (·.eval ρ) = sv.bits := by
+  obtain ⟨sv, hs, hd⟩ := Sem.soundT_all ρ env σ henv e hfrag s t v s' hwell h
+  exact ⟨sv, hs, hd, Sem.den_ty hd, Sem.den_wf hd, Sem.den_bits hd⟩
+
+/-- the environment `translate_ast` starts from (arguments of any `tyGood` type: bool, `Qint[w]` with
+`w ≥ 2`, `Qchar`, tuples of at least two such - `Qlist`, `Qmatrix`) satisfies the hypothesis of
+`C01_expr_struct` with `σ` = the arguments decoded from their bits (`Sem.argsEnvT`) -/
+theorem C01_expr_struct_args_env (ρ : Env) (args : List (String × Ty))
+    (hargs : ∀ p ∈ args, Sem.tyGood p.2 = true) :
+    Sem.EnvOKT ρ (args.foldl (fun env (n, t) => env ++ [⟨n, t, t.names n⟩]) []) (Sem.argsEnvT args ρ) :=
+  Sem.envOKT_args ρ args hargs
+
+/-- the hypotheses of `C01_expr_struct` are satisfiable: `(m[1][0] and a[1], a[0] + 1)` over
+`a : Tuple[Qint[2], bool]`, `m : Qmatrix[bool, 2, 2]` is in the fragment, reaches no excluded site under
+any assignment, and the translator accepts it with the type `Tuple[bool, Qint[2]]` -/
+example :
+    let args : List (String × Ty) :=
+      [("a", .tuple [.qint 2, .bool]), ("m", .tuple [.tuple [.bool, .bool], .tuple [.bool, .bool]])]
+    let e : PExp := .tuple [.boolop true [.subs "m" [1, 0], .subs "a" [1]], .bin "add" (.subs "a" [0]) (.cint 1)]
+    (∀ p ∈ args, Sem.tyGood p.2 = true) ∧ Sem.inFragT e = true ∧
+    (∀ ρ, Sem.wellT (Sem.argsEnvT args ρ) e = true) ∧
+    ∃ v s', (tr Quirks.none (args.foldl (fun env (n, t) => env ++ [⟨n, t, t.names n⟩]) []) e).run {}
+      = .ok ((.tuple [.bool, .qint 2], v), s') := by
+  refine ⟨by decide, by decide, fun ρ => rfl, ?_⟩
+  exact ⟨_, _, rfl⟩
+
+/-- **C01_body_struct** - the statement level for the structured types.  `Sem.structLine p` (decidable,
+`QV/Model/SemT.lean`): arguments and return of a `tyGood` type, argument names dot-free and other than
+`_ret`; statements `t = e` (`e` in `Sem.inFragT`, `t` dot-free, not `_ret`, `e` does not read `t`),
+`return e`, expression statements.  If `translate` accepts such a program with definition list `defs`, then
+for every assignment `ρ` of the argument bits at which no excluded site is reached (`Sem.wellProg`) the
+reference semantics `SemT` is defined on the program and the sequential evaluation of `defs` leaves in the
+return symbols - `_ret`, `_ret.i`, `_ret.i.j` … as `translate_argument` names the bits of the declared
+type - exactly the bits of the `SemT` value.  Proof (`QV/Proofs/FrontT6 … FrontT8.lean`): invariant
+`EnvInvT` (every binding has the bit names `Ty.names` of its type, a dot-free name, and its value in `σ` is
+the value `decodeT` reads from those symbols under the current assignment; every value of `σ` has a
+`tyGood` type - `semT_good`).  The symbols of a variable `t` are `t` and everything that starts with `t.`
+(`Sub`); the names of one type are pairwise different (`names_nodup`: two elements `t.i…`, `t.j…` differ in
+the digits up to the next dot, `child_disjoint`) and those of two dot-free variables are disjoint
+(`sub_disjoint`), so the definitions of one assignment can be run one after the other (`seq_evalT`,
+with `tr_indepT`: a value that does not read `t` denotes the same under every change of the symbols of
+`t`).  Assignment of a tuple value: `_nest_as_type` gives a flat value the nesting whose
+`decompose_to_symbols` names are those of the type (`nestAs_spec`, `den_renest`); the new binding's value
+is the one decoded from its symbols because a value in range is determined by its bits (`decode_of_bits`).
+`return`: fill / crop of a `Qint`, equal type otherwise (`ret_stepT`); later definitions are named below
+their targets and leave `_ret…` alone (`body_frameT`, purely structural). -/
+theorem C01_body_struct (p : Prog) (consts : List (Bool × Bool)) (hp : Sem.structLine p = true)
+    (defs : List (String × BExp)) (events : List String)
+    (h : translate Quirks.none consts p = .ok (defs, events)) (ρ : Env) (hw : Sem.wellProg p ρ = true) :
+    ∃ sv, Sem.semProgT p ρ = some sv ∧ (p.ret.names "_ret").map (runDefs defs ρ) = sv.bits :=
+  Sem.translate_sound_struct p consts hp defs events h ρ hw
+
+/-- the hypotheses of `C01_body_struct` are satisfiable:
+`def f(a: Tuple[Qint[2], bool], m: Qmatrix[bool, 2, 2]) -> Tuple[bool, Qint[2]]: return (m[1][0] and a[1], a[0] + 1)`
+is in the fragment, accepted, and reaches no excluded site -/
+example :
+    let p : Prog := ⟨[("a", .tuple [.qint 2, .bool]), ("m", .tuple [.tuple [.bool, .bool], .tuple [.bool, .bool]])],
+      .tuple [.bool, .qint 2],
+      [.ret (.tuple [.boolop true [.subs "m" [1, 0], .subs "a" [1]], .bin "add" (.subs "a" [0]) (.cint 1)])]⟩
+    Sem.structLine p = true ∧ (∀ ρ, Sem.wellProg p ρ = true) ∧
+      ∃ defs ev, translate Quirks.none [] p = .ok (defs, ev) := by
+  refine ⟨by decide, fun ρ => rfl, ?_⟩
+  exact ⟨_, _, rfl⟩
+
+/-- a second one with tuple-typed variables, `Qchar` and a nested return:
+`def g(c: Qchar, t: Tuple[Qint[2], Qint[2]], d: Qchar) -> Tuple[bool, Qint[2], Qchar]:`
+`u = t; e = d if c == 'a' else c; return (e != d, u[1] - u[0], e)` -/
+example :
+    let p : Prog := ⟨[("c", .qchar), ("t", .tuple [.qint 2, .qint 2]), ("d", .qchar)],
+      .tuple [.bool, .qint 2, .qchar],
+      [.assign "u" (.name "t"),
+       .assign "e" (.ite (.cmp "Eq" (.name "c") (.cchar 97)) (.name "d") (.name "c")),
+       .ret (.tuple [.cmp "NotEq" (.name "e") (.name "d"), .bin "sub" (.subs "u" [1]) (.subs "u" [0]), .name "e"])]⟩
+    Sem.structLine p = true ∧ (∀ ρ, Sem.wellProg p ρ = true) ∧
+      ∃ defs ev, translate Quirks.none [] p = .ok (defs, ev) := by
+  refine ⟨by decide, fun ρ => rfl, ?_⟩
+  exact ⟨_, _, rfl⟩
+
+/-- **semT_extends_semW** - the widened semantics is conservative: wherever the bool / Qint semantics gives
+an expression a value (under an environment whose variables have the same values in the widened one),
+`SemT` gives the same value and no excluded site is reached -/
+theorem semT_extends_semW (σ : Sem.SEnv) (σT : Sem.TEnv) (hle : Sem.EnvLe σ σT) (e : PExp) (sv : Sem.SVal)
+    (h : Sem.semW σ e = some sv) : Sem.semT σT e = some sv.toT ∧ Sem.wellT σT e = true :=
+  Sem.semT_of_semW σ σT hle e sv h
+
+/-- **semProgT_extends_semProg** - the same for programs on the decoded arguments: a `SemW` value is the
+`SemT` value (same bits), and `wellProg` holds there - the hypothesis of `C01_body_struct` is vacuous on
+the programs `C01_body` gives a meaning -/
+theorem semProgT_extends_semProg (p : Prog) (ρ : Env) (sv : Sem.SVal) (h : Sem.semProg p ρ = some sv) :
+    Sem.semProgT p ρ = some sv.toT ∧ sv.toT.bits = sv.bits ∧ Sem.wellProg p ρ = true :=
+  ⟨(Sem.semProgT_of_semProg p ρ sv h).1, Sem.toT_bits sv, (Sem.semProgT_of_semProg p ρ sv h).2⟩
+
+/-- **semT_agrees_sem_struct** - `semW_eq_sem` / `semW_low_bits` for the structured types.  `Sem.semXT`
+(`QV/Model/SemXT.lean`) is the exact python meaning widened like `SemT`: a value is a bool / `Qint` leaf
+(`XVal`: unbounded python int at the library type, with the number `k` of low bits wrap-around arithmetic
+determines), a `Qchar` leaf, or a tuple of such; a subscript selects python's bit `i` of the exact value,
+`==` / `!=` compare the exact leaves, an if-expression with an inexact test claims nothing.  On every
+expression on which both are defined, under environments that agree, the fixed-width value agrees with the
+exact one leaf by leaf (`Sem.AgreeT`: `Sem.Agree` on bool / `Qint` leaves - equal when in range, congruent
+modulo `2^j` for every `j` within the claim otherwise; equal `Qchar`s when claimed).  Structural induction
+with one lemma per operator (`QV/Proofs/FrontX1 … FrontX3.lean`); the bool / `Qint` operators through the
+lemmas of `Sem.sem_agree` (`mkInt_agree`, `intBin_agree`, …), new: `index_agree` (`bit_cong`: agreement on
+more than `i` low bits gives python's bit `i`), `cmpT_agree` (`beq_agree`: exact leaves equal iff the
+fixed-width ones are), `iteT_agree` (`undet_agree`). -/
+theorem semT_agrees_sem_struct (σX : Sem.XTEnv) (σW : Sem.TEnv) (henv : Sem.EnvAgreeT σX σW) (e : PExp)
+    (sv : Sem.TVal) (xv : Sem.XT) (hw : Sem.semT σW e = some sv) (hx : Sem.semXT σX e = some xv) :
+    Sem.AgreeT xv sv :=
+  Sem.semT_agree σX σW henv e sv xv hw hx
+
+/-- **C01_straightline_struct** - the property at full strength on the widened straight-line fragment
+(= `C01_body_struct` + `semT_agrees_sem_struct`).  If `translate` accepts a program of `Sem.structLine`
+with definition list `defs`, then for every assignment `ρ` of the argument bits at which no excluded site is
+reached: the fixed-width meaning `sv` (bool, `Qint`, `Qchar` or nested tuple) exists and the return symbols
+hold exactly its bits; and whenever the widened exact python semantics gives the program a value `xv` on
+the decoded arguments, `sv` agrees with it leaf by leaf, and every return bit that `xv` claims (`XT.claim`:
+per leaf all bits of the python value when in range, the low `k` bits otherwise) is the bit the definitions
+compute. -/
+theorem C01_straightline_struct (p : Prog) (consts : List (Bool × Bool)) (hp : Sem.structLine p = true)
+    (defs : List (String × BExp)) (events : List String)
+    (h : translate Quirks.none consts p = .ok (defs, events)) (ρ : Env) (hw : Sem.wellProg p ρ = true) :
+    ∃ sv, Sem.semProgT p ρ = some sv ∧ (p.ret.names "_ret").map (runDefs defs ρ) = sv.bits ∧
+      ∀ xv, Sem.semProgXT p ρ = some xv →
+        Sem.AgreeT xv sv ∧
+        ∀ (i : Nat) (b : Bool), xv.claim[i]? = some (some b) →
+          ∀ name, (p.ret.names "_ret")[i]? = some name → runDefs defs ρ name = b := by
+  obtain ⟨sv, hs, hbits⟩ := C01_body_struct p consts hp defs events h ρ hw
+  refine ⟨sv, hs, hbits, fun xv hx => ?_⟩
+  have ha := Sem.semProgT_agree p ρ sv xv hs hx
+  refine ⟨ha, fun i b hc name hn => ?_⟩
+  have h1 := Sem.agreeT_claim xv sv ha i b hc
+  rw [← hbits, List.getElem?_map, hn] at h1
+  simpa using h1
+
+/-- `C01_straightline_struct` in the shape of `C01_statement`: with `SemW p ρ :=` the claimed bits of the
+widened exact semantics where no excluded site is reached (`none` = nothing claimed elsewhere), the body of
+`C01_statement` holds for every program of `Sem.structLine` -/
+theorem C01_statement_struct (p : Prog) (consts : List (Bool × Bool)) (hp : Sem.structLine p = true) :
+    match translate Quirks.none consts p with
+    | .error _ => True
+    | .ok (defs, _) =>
+      ∀ ρ : String → Bool,
+        match (if Sem.wellProg p ρ then (Sem.semProgXT p ρ).map Sem.XT.claim else none) with
+        | none => True
+        | some expected =>
+          ∀ (i : Nat) (b : Bool), expected[i]? = some (some b) →
+            ∀ name, (p.ret.names "_ret")[i]? = some name → runDefs defs ρ name = b := by
+  split
+  · trivial
+  · rename_i defs ev htr
+    intro ρ
+    split
+    · trivial
+    · rename_i expected hexp
+      by_cases hw : Sem.wellProg p ρ = true
+      · simp only [hw, if_true] at hexp
+        obtain ⟨sv, _, _, hall⟩ := C01_straightline_struct p consts hp defs ev htr ρ hw
+        cases hx : Sem.semProgXT p ρ with
+        | none => simp [hx] at hexp
+        | some xv =>
+          simp only [hx, Option.map_some, Option.some.injEq] at hexp
+          subst hexp
+          exact (hall xv hx).2
+      · simp [hw] at hexp
 
 /-! ## guarded assignments: what `ast2ast` leaves for an `if`
 
